@@ -1,5 +1,6 @@
 import TucanProofs.Lemmas.LineMachinery
 import TucanProofs.Lemmas.SpliceAny
+import TucanProofs.Lemmas.V3000Lines
 /-!
 # C07 — the V3000 reader decodes exactly the molecule the file states
 
@@ -28,6 +29,40 @@ blanks, are recovered exactly. -/
 theorem C07_tokenize_blank_runs (toks : List Str) (h : ∀ t ∈ toks, IsToken t) (lead trail : Nat) (gaps : List Nat) :
     tokenizeLine (joinBlanks lead trail toks gaps) = toks :=
   tokenizeLine_joinBlanks toks h lead trail gaps
+
+/-- **The atom line under every spelling.**  Key=value properties in ANY order, other spec-defined keywords
+(whatever their values, `EXACHG`, `RGROUPS=(…)`, … ) anywhere in between, repeated keys, explicitly written
+defaults, `D` / `T`: the reader returns the stated element, the coordinate tokens, and for charge, radical
+and mass the last value written under exactly that keyword, with 0 meaning "not set". -/
+theorem C07_atom_line_every_spelling (idxTok sym x y z aamap : Str) (ps : List AtomProp)
+    (hidx : NotKeyword idxTok) (haa : NotKeyword aamap)
+    (hx : ∀ t ∈ [x, y, z], IsToken t ∧ pyFloatOk t = true)
+    (hps : ∀ p ∈ ps, p.Ok)
+    (hsym : sym ∈ elementSyms ∨ sym = ['D'] ∨ sym = ['T']) :
+    ∃ zAt : Int, atomicNumberOf (detectHydrogenIsotopes sym).1 = .ok zAt ∧
+    parseAtomAttributesV3000 (cs "M" :: cs "V30" :: idxTok :: sym :: x :: y :: z :: aamap :: ps.map AtomProp.tok) =
+      .ok (some { sym := some (detectHydrogenIsotopes sym).1, z := some zAt, part := some 0,
+                  x := some x, y := some y, zc := some z,
+                  chg := lastNonZero (chgValues ps),
+                  mass := if (detectHydrogenIsotopes sym).2 = 0 then lastNonZero (massValues ps)
+                          else some (detectHydrogenIsotopes sym).2,
+                  rad := lastNonZero (radValues ps) }) :=
+  parseAtomAttributes_general idxTok sym x y z aamap ps hidx haa hx hps hsym
+
+/-- star atoms are not atoms of the molecule -/
+theorem C07_star_atom (idxTok : Str) (rest : List Str) :
+    parseAtomAttributesV3000 (cs "M" :: cs "V30" :: idxTok :: ['*'] :: rest) = .ok none :=
+  parseAtomAttributes_star idxTok rest
+
+/-- **Multi-attachment bonds expand to one bond per listed endpoint** (`ENDPTS=(n a₁ … aₙ)` anywhere among
+the optional keywords of the bond line). -/
+theorem C07_endpts_expansion (pre post : List Str) (ends : List Nat) (start : Int) (hne : ends ≠ [])
+    (hpre : ∀ t ∈ pre, IsToken t ∧ ¬ isInfix (cs "ENDPTS=(") t = true ∧ ')' ∉ t)
+    (hpost : ∀ t ∈ post, IsToken t ∧ ')' ∉ t)
+    (hsize : ∀ e ∈ ends.length :: ends, (natRepr e).length ≤ intMaxStrDigits) :
+    parseBondLineWithStarAtom (pre ++ endptsToks ends ++ post) start =
+      .ok (ends.map fun (e : Nat) => (start, (e : Int) - 1)) :=
+  parseBondLineWithStarAtom_endpts pre post ends start hne hpre hpost hsize
 
 /-- integer fields read back -/
 theorem C07_int_fields (i : Int) (h : (intRepr i).length ≤ intMaxStrDigits) : pyInt (intRepr i) = .ok i :=
